@@ -47,3 +47,14 @@ Theorem C04_create_by_query_not_atomic_refuted : exists c q st,
   r_db (snd (exec_op (OCreateByQuery c q) st)) <> r_db st.
 Proof. exact create_by_query_not_atomic_refuted. Qed.
 Print Assumptions C04_create_by_query_not_atomic_refuted.
+
+(* ---- over whole histories (HistDom.v: every operation in the domain of the state it is applied to) ---- *)
+From Clover Require Import HistDom HistoryProofs.
+
+(* in every state of every history: an error result leaves the handle exactly as it was *)
+Theorem C04_errors_no_effect_along_histories :
+  forall (h : dbst) (o : op),
+         single_tx o = true -> T_is_err (fst (step h o)) = true -> snd (step h o) = h.
+Proof. exact history_errors_no_effect. Qed.
+Print Assumptions C04_errors_no_effect_along_histories.
+
